@@ -513,6 +513,24 @@ def resolve_anchor(text, anchor):
             raise LostAnchor("lost anchor: stmt %d (function has %d statements)" % (k, len(st)))
         s, e = st[k - 1]
         return s if a[2] == 'before' else e
+    if a[0] in ('let', 'assign'):
+        # def anchors keyed by variable: `let <name> before|after` = the top-level `let [mut] <name>` statement;
+        # `assign <k> <lhs> before|after` = k-th top-level statement that (compound-)assigns <lhs>
+        st = top_statements(text)
+        if a[0] == 'let':
+            name, where = a[1], a[2]
+            pat = re.compile(r'let\s+(?:mut\s+)?' + re.escape(name) + r'\b')
+            k = 1
+        else:
+            k, name, where = int(a[1]), a[2], a[3]
+            pat = re.compile(re.escape(name) + r'\s*(?:[-+*/%^|&]|<<|>>)?=(?!=)')
+        cnt = 0
+        for s_, e_ in st:
+            if pat.match(norm(m[s_:e_])):
+                cnt += 1
+                if cnt == k:
+                    return s_ if where == 'before' else e_
+        raise LostAnchor("lost anchor: %s (found %d matching statements)" % (anchor, cnt))
     if a[0] == 'macro':
         # k-th lone ';' line (rustc leaves one behind each expanded statement macro)
         k = int(a[1])
